@@ -346,6 +346,25 @@ static void c20_const() {
     if (memcmp(exp, q.out, q.size) != 0) rep().violation(fmt("oracle-endian:constant-initialiser:%s", q.what), fmt("%s holds bytes %s, expected bytes %s", q.what, hex(q.out, q.size, 16).c_str(), hex(exp, q.size, 16).c_str()), case_desc("const", (int64_t)i, "const"));
   }
 }
+// cv-qualified spellings of the arithmetic types (HostEndian<decltype(s.member)> for a const member, a volatile device register type) and bool
+template <typename Q, typename T> static void cv_one(const char* qname, T x) {
+  const T fb = nop::HostEndian<Q>::FromBig(x), tb = nop::HostEndian<Q>::ToBig(x), fl = nop::HostEndian<Q>::FromLittle(x), tl = nop::HostEndian<Q>::ToLittle(x);
+  lean_one<T>(fmt("HostEndian<%s>::FromBig", qname).c_str(), x, fb, true); lean_one<T>(fmt("HostEndian<%s>::ToBig", qname).c_str(), x, tb, true);
+  lean_one<T>(fmt("HostEndian<%s>::FromLittle", qname).c_str(), x, fl, false); lean_one<T>(fmt("HostEndian<%s>::ToLittle", qname).c_str(), x, tl, false);
+  const T back = nop::HostEndian<Q>::ToBig(fb); if (!biteq(back, x)) rep().violation(fmt("oracle-endian:HostEndian<%s>::ToBig(FromBig(x))", qname), fmt("HostEndian<%s>: ToBig(FromBig(bytes %s)) = bytes %s", qname, bits(x).c_str(), bits(back).c_str()), case_desc(qname, -1, "cv"));
+  rep().count("c20_values_through_cv_qualified_types_and_bool", 4);
+}
+static void c20_cv() {
+  if (!mine(21)) return;
+  Rng r = case_rng("cv", 0);
+  cv_one<bool, bool>("bool", false); cv_one<bool, bool>("bool", true);
+  for (int i = 0; i < 3000; i++) {
+    uint64_t u = i < 8 ? (0x0102030405060708ull << (i * 8 % 64)) | (uint64_t)i : r.next(); float f; uint32_t fb = (uint32_t)(u >> 7); if (i % 5 == 0) fb = (fb & 0x007fffffu) | 0x7f800000u | (fb & 0x80000000u); memcpy(&f, &fb, 4);
+    double d; uint64_t db = (i % 5 == 1) ? ((u & 0x000fffffffffffffull) | 0x7ff0000000000000ull) : u; memcpy(&d, &db, 8);
+    cv_one<const float, float>("const float", f); cv_one<volatile float, float>("volatile float", f); cv_one<const double, double>("const double", d); cv_one<const volatile double, double>("const volatile double", d);
+    // (const-qualified integral types are not accepted by the integral specialisation - it assigns to a local of type T - so only the floating-point ones exist)
+  }
+}
 template <typename T, typename U> static void c20_type(const char* tname, int unit) {
   // U = unsigned integer of the same width, used to enumerate bit patterns
   if (!selected(tname, -1) && !args().only_type.empty()) return;
@@ -415,7 +434,7 @@ int vf::engine_main() {
     c20_type<float, uint32_t>("float", 8); c20_type<double, uint64_t>("double", 9);
     // the integral types that are distinct from every fixed-width typedef on this ABI ("every integral value" is not only the <cstdint> names)
     c20_type<long long, uint64_t>("long long", 10); c20_type<unsigned long long, uint64_t>("unsigned long long", 11);
-    c20_lean(); c20_early(); c20_ndebug(); c20_const();
+    c20_lean(); c20_early(); c20_ndebug(); c20_const(); c20_cv();
     c20_type<char, uint8_t>("char", 12); c20_type<wchar_t, uint32_t>("wchar_t", 13); c20_type<char16_t, uint16_t>("char16_t", 14); c20_type<char32_t, uint32_t>("char32_t", 15);
     return 0;
   }
